@@ -63,6 +63,9 @@ TEMPLATES = {
     "dataclass_hand": ("    res.append(new == snapshot(P(a=h0, b=5)))\n", ["h0", "n0", "n1"], "P(a=n0, b=n1)"),
     "aborting_assert": ("    assert new[0] == snapshot(c0)\n    assert new[1] <= snapshot(c1)\n", ["c0", "c1", "n0", "n1"], "[n0, n1]"),
     "hasrepr": ("    res.append(new == snapshot())\n", ["n0"], "[n0, Weird(1)]"),
+    "hasrepr_list_insert": ("    res.append(new == snapshot([c0]))\n", ["c0", "n0"], "[n0, Weird(1)]"),
+    "hasrepr_new_key": ("    s = snapshot({1: c0})\n    res.append(s[1] == new[0])\n    res.append(s[2] == new[1])\n", ["c0", "n0"], "[n0, Weird(2)]"),
+    "hasrepr_dict_insert": ("    res.append(new == snapshot({1: c0}))\n", ["c0", "n0"], "{1: n0, 2: Weird(3)}"),
     # several files: one needs create and fix, the other only create
     "two_files": ("    res.append(new[0] == snapshot())\n    res.append(new[1] == snapshot(c0))\n", ["c0", "n0", "n1"], "[n0, n1]"),
 }
